@@ -108,7 +108,7 @@ func runAdapterLayer(r *lib.Run) {
 	r.Set("adapter_layer", map[string]any{
 		"scenarios_run": scenarios, "requests_sent": requests, "deliveries_and_responses_observed": positive,
 		"expected_but_not_observed_inconclusive": inconclusive,
-		"what": "real proxy.New + bungee.go adapter; Alice@lobby, bob@games, Carol@games, empty server; all 18 sub-channels sent over Alice's backend connection",
+		"what":                                   "real proxy.New + bungee.go adapter; Alice@lobby, bob@games, Carol@games, empty server; all 18 sub-channels sent over Alice's backend connection",
 	})
 }
 
@@ -171,6 +171,19 @@ func adapterScenario(r *lib.Run, pv proto.Protocol, salt int, nReq, nPos, nInc *
 		}
 		st.Players = append(st.Players, ref.Player{Name: p.name, UUID: [16]byte(p.c.LoginSuccess.UUID), Host: p.addr.IP.String(), Port: p.addr.Port,
 			Server: p.server, ConnProtocol: int(pv)})
+	}
+	// JoinGame reaches the client slightly before the proxy records the player's current server;
+	// let that settle (public API, stimulus only)
+	for end := time.Now().Add(5 * time.Second); time.Now().Before(end); time.Sleep(2 * time.Millisecond) {
+		ready := true
+		for _, p := range players {
+			if pp := h.P.PlayerByName(p.name); pp == nil || pp.CurrentServer() == nil {
+				ready = false
+			}
+		}
+		if ready {
+			break
+		}
 	}
 	alice := players[0]
 	channel := ref.ResponseChannel(int(pv))
@@ -448,19 +461,54 @@ func adapterScenario(r *lib.Run, pv proto.Protocol, salt int, nReq, nPos, nInc *
 		}
 	}
 
-	// Connect: Alice asks to be moved to games (last: it replaces the connection the requests travel on)
-	before := len(backends["games"].Conns())
-	if send(request{label: "Connect games", data: utf("Connect", "games")}) {
-		moved := false
-		for end := time.Now().Add(5 * time.Second); time.Now().Before(end) && !moved; time.Sleep(5 * time.Millisecond) {
-			cs := backends["games"].Conns()
-			for _, bc := range cs[before:] {
-				if bc.WaitLogin(time.Second) && bc.Login != nil && strings.EqualFold(bc.Login.Username, "Alice") {
-					moved = true
+	// ConnectOther: bob is moved to lobby
+	waitLogin := func(srv, user string, from int) bool {
+		for end := time.Now().Add(5 * time.Second); time.Now().Before(end); time.Sleep(5 * time.Millisecond) {
+			cs := backends[srv].Conns()
+			if len(cs) <= from {
+				continue
+			}
+			for _, bc := range cs[from:] {
+				if bc.WaitLogin(time.Second) && bc.Login != nil && strings.EqualFold(bc.Login.Username, user) {
+					return true
 				}
 			}
 		}
-		if moved {
+		return false
+	}
+	lobbyBefore := len(backends["lobby"].Conns())
+	if send(request{label: "ConnectOther bob lobby", data: utf("ConnectOther", "bob", "lobby")}) {
+		if waitLogin("lobby", "bob", lobbyBefore) {
+			*nPos++
+			r.Distinct(fmt.Sprintf("adapter|%d|ConnectOther|moved", pv))
+		} else {
+			*nInc++
+			r.Inconclusive(fmt.Sprintf("adapter layer (protocol %d): ConnectOther bob lobby: no new connection of bob at lobby observed", pv))
+		}
+	}
+	// KickPlayerRaw: bob is kicked with a JSON reason
+	if send(request{label: "KickPlayerRaw bob", data: utf("KickPlayerRaw", "bob", `{"text":"`+tok("kickraw")+`"}`)}) {
+		bob := players[1]
+		_, err := bob.c.WaitFor(func(rec *e2e.Rec) bool { return bytes.Contains(rec.Payload, []byte(tok("kickraw"))) }, 5*time.Second)
+		if err == nil {
+			*nPos++
+			r.Distinct(fmt.Sprintf("adapter|%d|KickPlayerRaw|kicked", pv))
+		} else {
+			*nInc++
+			r.Inconclusive(fmt.Sprintf("adapter layer (protocol %d): KickPlayerRaw bob: reason not observed at bob's client", pv))
+		}
+		for _, p := range []*pl{players[0], players[2]} {
+			for _, rec := range p.c.Log() {
+				if bytes.Contains(rec.Payload, []byte(tok("kickraw"))) {
+					r.Violation("adapter:KickPlayerRaw:delivered-to-wrong-player", "the kick reason for bob arrived at client "+p.name, adapterWitness{Protocol: int(pv), State: st, Request: "KickPlayerRaw bob"})
+				}
+			}
+		}
+	}
+	// Connect: Alice asks to be moved to games (last: it replaces the connection the requests travel on)
+	before := len(backends["games"].Conns())
+	if send(request{label: "Connect games", data: utf("Connect", "games")}) {
+		if waitLogin("games", "Alice", before) {
 			*nPos++
 			r.Distinct(fmt.Sprintf("adapter|%d|Connect|moved", pv))
 		} else {
